@@ -346,7 +346,8 @@ def run(args) -> int:
                 "distinct_stdout_among_512": len(set(enum_out.values())),
                 "note": "the probe program is sensitive to each of the nine traits alone and in the all-but-one context",
             },
-            "programs": {k: len(v) for k, v in progs.items()},
+            "programs": len(progs),
+            "program_sizes_bytes": {k: len(v.encode("utf-8")) for k, v in progs.items()},
             "worker_worlds": nw,
             "runs_per_hour": int(len(runs) / max(wall, 1e-9) * 3600),
             "real_vs_stub": {
